@@ -211,3 +211,31 @@ Proof.
   induction evs as [|ev r IH]; [reflexivity|]. cbn [map zip_abs flat_map].
   rewrite proxy_run_app', preply_abs, IH. reflexivity.
 Qed.
+
+(* ---------------------------------------------------------------- the executable library instance (table_lib) *)
+
+(* a decidable sufficient condition for the contract: every entry that parses keeps scheme and host in the entry
+   of its printed string (used for the non-vacuity examples; the harness checks the same on Go's own answers) *)
+Definition table_roundtrip_ok (t : list (bytes * parsed_url)) : bool :=
+  forallb (fun kv : bytes * parsed_url =>
+             match snd kv, tbl_lookup (redial_token (fst kv) []) t with
+             | Parsed sch h, Parsed sch' h' => beq sch' sch && beq h' h
+             | _, _ => true
+             end) t.
+
+Lemma tbl_lookup_in : forall t k s h, tbl_lookup k t = Parsed s h -> In (k, Parsed s h) t.
+Proof.
+  induction t as [|[k' v] r IH]; intros k s h H; cbn [tbl_lookup] in H; [discriminate|].
+  destruct (beq k k') eqn:E.
+  - apply beq_eq in E. subst. left. reflexivity.
+  - right. apply IH. exact H.
+Qed.
+
+Lemma table_lib_preserves t : table_roundtrip_ok t = true -> redial_preserves (table_lib t).
+Proof.
+  intros OK raw ip sch h sch' h' H1 H2. cbn [table_lib ul_parse ul_redial] in *.
+  unfold table_roundtrip_ok in OK. rewrite forallb_forall in OK.
+  specialize (OK _ (tbl_lookup_in _ _ _ _ H1)). cbn [fst snd] in OK.
+  unfold redial_token in *. rewrite H2 in OK. apply andb_prop in OK. destruct OK as [A B].
+  apply beq_eq in A. apply beq_eq in B. split; assumption.
+Qed.
